@@ -183,7 +183,13 @@ def run(ctx):
         text_t = any("isinstance(key, type(''))" in t or "isinstance(key, str)" in t for t in tests)
         ok = text_t and any("bytes" in t for t in tests) and any("bytearray" in t for t in tests) and "raise TypeError" in src and \
             "utf-8" in src.lower()
-        r.check(ok, "%s#coercion" % f.qname, "key coercion does not cover text (UTF-8), bytes and bytearray with a TypeError fall-through",
+        allowed = ("key.encode('utf-8')", "bytearray(key, 'utf-8')", "bytes(key)", "bytearray(key)", "key.encode()")
+        for x in ast.walk(f.node):
+            if isinstance(x, ast.Assign) and any(isinstance(t, ast.Name) and t.id == f.params[1] for t in x.targets):
+                if norm(x.value).lower().replace('"', "'") not in [a.replace("key", f.params[1]) for a in allowed]:
+                    ok = False
+        r.check(ok, "%s#coercion" % f.qname, "key coercion does not cover text (UTF-8), bytes and bytearray with a TypeError fall-through, or "
+                "transforms the key beyond encoding it",
                 where(f, f.node), "text and UTF-8 byte forms of a key land on different partitions")
 
     # ---- R4 32-bit discipline and constants
@@ -286,7 +292,9 @@ def run(ctx):
     mk = [n for n in cn.nodes if n.kind == "stmt" and isinstance(n.stmt, ast.Assign) and norm(n.stmt.targets[0]).startswith("self.partitioners[")]
     use = [c for c in calls_in(np_, "partition")]
     pl = [x for x in walk_body_shallow(np_.body) if isinstance(x, ast.Assign) and norm(x.value) == "self.client.topic_partitions[%s]" % np_.params[1]]
-    ok = len(mk) == 1 and ("%s not in self.partitioners" % np_.params[1], True) in fn[mk[0].id] and len(use) == 1 and bool(pl) and \
+    ndefs = len([x for x in walk_body_shallow(np_.body) if isinstance(x, (ast.Assign, ast.AugAssign)) and pl and any(
+        unparse(t) == unparse(pl[0].targets[0]) for t in (x.targets if isinstance(x, ast.Assign) else [x.target]))])
+    ok = len(mk) == 1 and ndefs == 1 and ("%s not in self.partitioners" % np_.params[1], True) in fn[mk[0].id] and len(use) == 1 and bool(pl) and \
         norm(use[0].func.value) == "self.partitioners[%s]" % np_.params[1] and norm(use[0].args[1]) == unparse(pl[0].targets[0])
     r.check(ok, "%s#one-partitioner-per-topic" % np_.qname, "partitioner is re-created per call or not given the current partition list", where(np_, np_.node),
             "round robin restarts at every send: all messages go to one partition")
@@ -308,6 +316,11 @@ MUTANTS = [
     {"id": "tail-elif", "file": "partitioner.py", "old": "    if extra_bytes >= 2:", "new": "    if extra_bytes == 2:", "expect": "C18.R4"},
     {"id": "wrong-m", "file": "partitioner.py", "old": "    m = 0x5BD1E995", "new": "    m = 0x5BD1E997", "expect": "C18.R4"},
     {"id": "final-shift", "file": "partitioner.py", "old": "    h ^= (h % 0x100000000) >> 13  # h >>> 13;", "new": "    h ^= (h % 0x100000000) >> 12  # h >>> 13;", "expect": "C18.R4"},
+    {"id": "text-key-normalised", "file": "partitioner.py", "old": "                key = key.encode(\"UTF-8\")",
+     "new": "                key = key.strip().encode(\"UTF-8\")", "expect": "C18.R3", "note": "seeded C18-4 (key transformed before encoding)"},
+    {"id": "partition-list-filtered", "file": "producer.py", "old": "        # Do we have a partitioner for this topic already?",
+     "new": "        partitions = [p for p in partitions if p is not None] or partitions\n        # Do we have a partitioner for this topic already?",
+     "expect": "C18.R6", "note": "seeded C18-5"},
     {"id": "rr-double-advance", "file": "partitioner.py", "old": "            self._set_partitions(partitions)\n        return next(self.iterpart)",
      "new": "            self._set_partitions(partitions)\n        next(self.iterpart)\n        return next(self.iterpart)", "expect": "C18.R5"},
     {"id": "rr-always-rebuild", "file": "partitioner.py", "old": "        if self.partitions != partitions:\n            self._set_partitions(partitions)",
